@@ -150,6 +150,39 @@ def splice_crate(sc, crate_dir, mods, obls, kind, crate_name):
     sc.append(os.path.join(crate_dir, "src", "lib.rs"), "\n".join(lines))
 
 
+def slice_ident_reader(sc):
+    """C08: mechanical cut of `aircraft_identification_read` at the statement that builds the
+    String, so that the character loop (all 2^48 inputs, Vec of capacity 8) and the table mapping
+    (every concrete length 0..=8, symbolic codes) are verified separately: CBMC cannot read the
+    contents of a String of symbolic length.  Generated on every run from /repo's text; self-check:
+    loop part + tail statement + `Ok(encoded)` is exactly the original body.  Dropped: nothing;
+    added: the two new signatures, `Ok(chars)` and the tail's return expression."""
+    import re
+    rel = os.path.join("libadsb_deku", "src", "lib.rs")
+    src = sc.originals.get(rel) or sc.read(rel)
+    m = re.search(r"pub\(crate\) fn aircraft_identification_read<R: Read \+ Seek>\(\n\s*reader: &mut Reader<R>,\n\) -> Result<String, DekuError> \{\n(.*?)\n\}\n", src, re.S)
+    if not m:
+        raise Undecided("lost anchor: aircraft_identification_read signature")
+    body = m.group(1)
+    k = body.find("    let encoded =")
+    if k < 0:
+        raise Undecided("lost anchor: `let encoded =` statement in aircraft_identification_read")
+    part1 = body[:k]
+    rest = body[k:]
+    e = rest.find(";\n")
+    tail_stmt = rest[:e + 1]
+    after = rest[e + 1:]
+    if after.strip() != "Ok(encoded)":
+        raise Undecided("unsupported shape of aircraft_identification_read after the String statement: %r" % after.strip()[:80])
+    if "chars" not in tail_stmt or "reader" in tail_stmt:
+        raise Undecided("the String statement of aircraft_identification_read does not depend on `chars` only")
+    if (part1 + tail_stmt + after) != body:
+        raise Undecided("slice self-check failed")
+    text = ("\n#[cfg(kani)]\npub(crate) fn verif_ident_loop<R: Read + Seek>(\n    reader: &mut Reader<R>,\n) -> Result<Vec<u8>, DekuError> {\n"
+            + part1 + "    Ok(chars)\n}\n#[cfg(kani)]\npub(crate) fn verif_ident_tail(chars: Vec<u8>) -> String {\n" + tail_stmt + "\n    encoded\n}\n")
+    sc.append(rel, text)
+
+
 def inplace_appends(sc, kind):
     """Harness text that must live inside a private module (cpr.rs, ...) is appended to that
     file: contracts/harness/inplace_<crate>_<file>.rs"""
@@ -193,6 +226,8 @@ def make_scratch(obls, kind="kani", with_common=None):
         if with_common:
             splice_crate(sc, "rsadsb_common", COMMON_MODS, obls, kind, "rsadsb_common")
         inplace_appends(sc, kind)
+        if kind == "kani":
+            slice_ident_reader(sc)
         overlay_attrs(sc)
         if kind == "native":
             os.makedirs(sc.path("verif_replay_bin/src"))
